@@ -255,6 +255,7 @@ structure ApiCase where
   rows : List Row
   cols : List (List Val)
   batchSize : Nat
+  sig : String := "-"
 
 def showOut : Out → String
   | .rows rs => "rows:" ++ showRows rs
@@ -274,6 +275,7 @@ structure ModelRun where
   outs : List Out
   parts : List PRes
   early : Option Out      -- an outcome that does not depend on the tree (partition failed / not predictable)
+  univ : List (List Val) := []
 
 def runModel (c : ApiCase) : ModelRun :=
   let keys := c.sel.filterMap SelItem.keyCol?
@@ -285,18 +287,22 @@ def runModel (c : ApiCase) : ModelRun :=
   let badType := iaggs.any fun a => match a with
     | .cnt1 | .cnt _ => false
     | .sum col | .min col | .max col => colKind (c.cols.getD col []) = .other
-  if badType then ⟨[], [], some .unknown⟩ else
+  if badType then { outs := [], parts := [], early := some .unknown } else
   match keptRows c with
-  | none => ⟨[], [], some .unknown⟩
+  | none => { outs := [], parts := [], early := some .unknown }
   | some kepts =>
-      let pouts := (kepts.zip c.metas).map fun (k, m) => partitionResult keys iaggs m k
-      if kepts.length ≠ c.metas.length then ⟨[], [], some .unknown⟩
-      else if pouts.any (fun p => match p with | .unknown => true | _ => false) then ⟨[], [], some .unknown⟩
-      else if pouts.any (fun p => match p with | .overflow => true | _ => false) then ⟨[], [], some .overflow⟩
+      -- string / float grouping columns are merged on the ranks of their values (the step functions only compare)
+      let kinds : List ColKind := keys.map fun k => colKind (c.cols.getD k [])
+      let univ : List (List Val) := (keys.zip kinds).map fun (k, kd) =>
+        if kd = .int then [] else sortBy valLt (((c.cols.getD k []).filter (· ≠ .null)).eraseDups)
+      let pouts := (kepts.zip c.metas).map fun (k, m) => partitionResult keys iaggs m k kinds
+      if kepts.length ≠ c.metas.length then { outs := [], parts := [], early := some .unknown }
+      else if pouts.any (fun p => match p with | .unknown => true | _ => false) then { outs := [], parts := [], early := some .unknown }
+      else if pouts.any (fun p => match p with | .overflow => true | _ => false) then { outs := [], parts := [], early := some .overflow }
       else
         let parts := pouts.filterMap fun p => match p with | .ok r => some r | _ => none
         let trees := allTrees 8 0 parts.length
-        ⟨trees.map (runTree c.sel keys iaggs isFloat parts), parts, none⟩
+        ⟨trees.map (runTree univ c.sel keys iaggs isFloat parts), parts, none, univ⟩
 
 /-- A SUM whose exact value (over the group's rows inside one partition, or over a merged prefix) is i64::MAX. -/
 def sumHitsSentinel (c : ApiCase) : Bool :=
@@ -358,7 +364,7 @@ def aggAbsentTrigger (c : ApiCase) : Bool :=
 def valRowsStreamed (c : ApiCase) : Bool :=
   let keys := c.sel.filterMap SelItem.keyCol?
   keys.length ≥ 2 && (c.bounds.zip c.metas).any fun (b, pm) =>
-    decide (b.2 - b.1 > c.batchSize) &&
+    decide (b.2 - b.1 ≥ c.batchSize) &&
       (Group.planPack ((keys.map fun k => pm.getD k ColMeta.absent).reverse.map fun m => ((effRange m).getD none, m.nullable)) 0).isNone
 
 /-- The specification's rows with the engine's treatment of a group without non-NULL input substituted
@@ -447,6 +453,15 @@ def compressedKeyTrigger (c : ApiCase) : Bool :=
       let m := pm.getD col ColMeta.absent
       (colCells col kept).any fun v => emitKey m v ≠ v
 
+/-- `sum-sentinel` where the model does not predict: the specification's rows with every integer SUM / AVG cell equal
+    to i64::MAX shown as NULL (a final sum that is the sentinel). -/
+def sumPatchedRows (c : ApiCase) : Option (List Row) :=
+  match specGroupBy i2fNative c.sel c.pred c.rows with
+  | .ok srows => some (srows.map fun r => (c.sel.zip r).map fun (s, v) => match s, v with
+      | .agg a, .int i => if (a.fn = .sum ∨ a.fn = .avg) ∧ i = I64_MAX then .null else v
+      | _, v => v)
+  | _ => none
+
 /-- One partition: the specification's rows with every key cell replaced by the truncated value the engine emits. -/
 def truncPatchedRows (c : ApiCase) : Option (List Row) :=
   -- (on top of the `count-null-group` substitution when that finding's trigger holds as well)
@@ -495,7 +510,8 @@ def stepGrp (sel wh impl bounds metaTok phys : String) (colToks : List String) :
       let n := (cs.head?.map List.length).getD 0
       let rows := transpose cs n
       let batchSize := ((phys.splitOn "/").getD 5 "1024").toNat?.getD 1024
-      let c : ApiCase := ⟨s, p, impl, bs, ms, rows, cs, batchSize⟩
+      let sig := (phys.splitOn "/").getD 7 "-"
+      let c : ApiCase := ⟨s, p, impl, bs, ms, rows, cs, batchSize, sig⟩
       let spec := judgeApi impl (specGroupBy i2fNative s p rows) (mayOverflow i2fNative s p rows)
       let run := runModel c
       let outs := match run.early with
@@ -513,9 +529,11 @@ def stepGrp (sel wh impl bounds metaTok phys : String) (colToks : List String) :
         else if valRowsStreamed c then "groupby-valrows-streamed"
         else if compressedKeyTrigger c ∧ (modelAgrees ∨ (model = "?" ∧
             (c.metas.length ≥ 2 ∨ (truncPatchedRows c).any (sameMultiset impl)))) then "groupby-compressed-key-type"
-        else if modelAgrees ∧ run.parts.length ≥ 2 ∧ run.parts.any (fun p => !keysAscending p) then "groupby-null-key-order"
+        else if modelAgrees ∧ run.parts.length ≥ 2 ∧ run.parts.any (fun p => !keysAscending run.univ p) then "groupby-null-key-order"
         else if nullKeyOrderTrigger c && regroupMatches c impl then "groupby-null-key-order"
-        else if modelAgrees ∧ sumHitsSentinel c then "sum-sentinel"
+        else if sumHitsSentinel c ∧ (modelAgrees ∨ (model = "?" ∧ (sumPatchedRows c).any (sameMultiset impl))) then "sum-sentinel"
+        else if c.sig = "pinned" ∧ (impl = "err:canceled" ∨ impl = "hang" ∨ impl = "panic") then "executor-pinned-buffer"
+        else if c.sig = "emptyvec" ∧ (impl = "err:canceled" ∨ impl = "hang" ∨ impl = "panic") then "executor-empty-vector"
         else if countNullGroup c ∧ (modelAgrees ∨ (countPatchedRows c).any (sameMultiset impl)) then "count-null-group"
         else ""
       model ++ "\t" ++ spec ++ (if known = "" then "" else "\t" ++ known)
